@@ -12,14 +12,14 @@ func init() { props["C04"] = runC04 }
 
 // decvResult: what the implementation does with token bytes.
 type decvResult struct {
-	line      string
-	decOK     bool
-	accepted  bool
-	panicked  bool
-	claims    psa.IClaims
-	desc      ClaimsDesc
-	descOK    bool
-	obs       obsRes
+	line     string
+	decOK    bool
+	accepted bool
+	panicked bool
+	claims   psa.IClaims
+	desc     ClaimsDesc
+	descOK   bool
+	obs      obsRes
 }
 
 func decv(buf []byte) decvResult {
@@ -335,9 +335,21 @@ func genTokens(rng *Rng, thorough bool, emit func(tc tokCase)) {
 			func() *Node { c := good(); delKey(c, 2); return nArr(c) },
 			func() *Node { c := good(); delKey(c, 5); return nArr(c) },
 			func() *Node { c := good(); setKey(c, 3, nTstr("x")); setKey(c, 7, nUint(1)); return nArr(c) },
-			func() *Node { c := good(); c.Pairs = append(c.Pairs, [2]*Node{nUint(2), nBstr(fill(32, 9))}); return nArr(c) },
-			func() *Node { c := good(); c.Pairs = append(c.Pairs, [2]*Node{nTstr("2"), nBstr(fill(3, 9))}); return nArr(c) },
-			func() *Node { c := good(); c.Pairs = append([][2]*Node{{nTstr("5"), nUint(9)}}, c.Pairs...); return nArr(c) },
+			func() *Node {
+				c := good()
+				c.Pairs = append(c.Pairs, [2]*Node{nUint(2), nBstr(fill(32, 9))})
+				return nArr(c)
+			},
+			func() *Node {
+				c := good()
+				c.Pairs = append(c.Pairs, [2]*Node{nTstr("2"), nBstr(fill(3, 9))})
+				return nArr(c)
+			},
+			func() *Node {
+				c := good()
+				c.Pairs = append([][2]*Node{{nTstr("5"), nUint(9)}}, c.Pairs...)
+				return nArr(c)
+			},
 			func() *Node { c := good(); c.Pairs = append(c.Pairs, [2]*Node{nBstr(nil), nUint(9)}); return nArr(c) },
 			func() *Node { c := good(); shuffle(rng, c); return nArr(good(), c) },
 		}
